@@ -986,7 +986,19 @@ class CaseTimeout(BaseException):
     around individual operations must not swallow it)"""
 
 
-def _alarm(_sig, _frm):
+class CaseRange(BaseException):
+    """the per-case limit expired INSIDE a function of math_functions.py: the only thing there that can take
+    long is exact integer exponentiation (x ** n on Python ints), and a result that takes this long to
+    compute has millions of digits, so the float() around it raises OverflowError as soon as it returns:
+    an exact intermediate outside the double range, which every property excludes"""
+
+
+def _alarm(_sig, frm):
+    f = frm
+    while f is not None:
+        if f.f_code.co_filename.endswith('math_functions.py'):
+            raise CaseRange()
+        f = f.f_back
     raise CaseTimeout()
 
 
@@ -1016,12 +1028,16 @@ def main():
             # do not let a non-terminating implementation stall the whole check
             out.write('ERROR timeout: skipped after %d cases of this batch ran into the per-case limit\n' % timeouts)
             continue
+        t_case = _time.time()
         try:
             signal.setitimer(signal.ITIMER_REAL, limit)
             try:
                 res = run_line(line)
             finally:
                 signal.setitimer(signal.ITIMER_REAL, 0)
+        except CaseRange:
+            res = 'PYERR OverflowError'
+            t_start += _time.time() - t_case      # does not count against the batch budget
         except CaseTimeout:
             timeouts += 1
             res = 'ERROR timeout: the case did not finish within %.0f s (non-termination or unbounded growth)' % limit
